@@ -62,7 +62,7 @@ struct QCfg {
 void queue_body(const QCfg& c) {
     Queue<int> q{static_cast<std::size_t>(c.max_size), "q"};
     Log log;
-    std::atomic<int> maxsize{0};
+    vsched::raw_atomic<int> maxsize{0};
     std::vector<std::vector<int>> pushed(c.producers), popped(c.consumer_pops.size());
     std::vector<int> try_popped;
     std::vector<std::thread> th;
@@ -147,12 +147,12 @@ struct PCfg {
 // a callable whose move differs from its copy (it owns heap state): submitting it must not consume the caller's object
 struct StatefulTask {
     std::vector<int> data;
-    std::atomic<int>* ran;
+    vsched::raw_atomic<int>* ran;
     int operator()() const { ++*ran; int s = 0; for (int v : data) s += v; return s; }
 };
 
 void pool_reuse_body(const PCfg& c) {
-    std::atomic<int> ran_fn{0}, ran_st{0};
+    vsched::raw_atomic<int> ran_fn{0}, ran_st{0};
     std::vector<std::future<int>> ffn, fst;
     {
         Pool pool{c.workers, static_cast<std::size_t>(c.queue_bound)};
@@ -174,8 +174,8 @@ void pool_reuse_body(const PCfg& c) {
 
 void pool_body(const PCfg& c) {
     if (c.reuse_callable) { pool_reuse_body(c); return; }
-    std::vector<std::unique_ptr<std::atomic<int>>> ran;
-    for (int i = 0; i < c.tasks * c.submitters; ++i) ran.emplace_back(new std::atomic<int>{0});
+    std::vector<std::unique_ptr<vsched::raw_atomic<int>>> ran;
+    for (int i = 0; i < c.tasks * c.submitters; ++i) ran.emplace_back(new vsched::raw_atomic<int>{0});
     std::vector<std::future<int>> futs(c.tasks * c.submitters);
     std::ostringstream out;
     {
@@ -183,7 +183,7 @@ void pool_body(const PCfg& c) {
         auto submit_range = [&](int s) {
             for (int i = 0; i < c.tasks; ++i) {
                 int idx = s * c.tasks + i;
-                std::atomic<int>* r = ran[idx].get();
+                vsched::raw_atomic<int>* r = ran[idx].get();
                 futs[idx] = pool.submit([r, idx]() -> int { ++*r; if (idx % 3 == 1) throw std::runtime_error("task " + std::to_string(idx)); return 100 + idx; });
             }
         };
